@@ -557,6 +557,11 @@ func (in *Interp) evalValue(fr *frame, v ssa.Value) (Value, *iPanic) {
 			return nil, in.mkPanic("nil-deref", "nil pointer dereference (field)")
 		}
 		st := under(x.X.Type().(*types.Pointer).Elem()).(*types.Struct)
+		if n, ok := x.X.Type().(*types.Pointer).Elem().(*types.Named); ok && !p.O.Raw && n.Obj().Name() == "SliceHeader" && n.Obj().Pkg() != nil && n.Obj().Pkg().Path() == "reflect" {
+			if _, isSlice := p.O.Slots[p.Off].(SliceV); isSlice {
+				return Pointer{O: p.O, Off: p.Off, Hdr: x.Field + 1}, nil
+			}
+		}
 		if p.O.Raw {
 			return Pointer{O: p.O, Off: p.Off + fieldByteOff(st, x.Field)}, nil
 		}
